@@ -264,14 +264,79 @@ class ScandirProxy:
         self.close()
 
 
+def make_sim_pool(seam):
+    """Stand-in for gemato.util.MultiprocessingPoolWrapper: the same interface, one process, but the completion
+    order of imap_unordered() - which its contract leaves open - is decided by the run's key.  Inputs are pulled in
+    windows (how far a pool reads ahead of the results it has handed out), evaluated in one keyed permutation of the
+    window and handed out in another.  An exception raised by the input iterator surfaces after the results of the
+    tasks submitted before it."""
+
+    class SimPool:
+        __slots__ = []
+
+        def __init__(self, processes):
+            pass
+
+        def __enter__(self):
+            return self
+
+        def __exit__(self, exc_type, exc_value, exc_cb):
+            pass
+
+        def map(self, func, it, chunksize=None):
+            return map(func, it)
+
+        def imap_unordered(self, func, it, chunksize=None):
+            seam.pool_calls += 1
+            call_no = seam.pool_calls
+            key = seam.order_key
+            win = (1, 2, 3, 8, 64, 10**9, 10**9)[_h(key, 'poolw', seam.op_index, call_no)[0] % 7]
+            it = iter(it)
+            bno = 0
+            while True:
+                batch = []
+                exc = None
+                done = False
+                try:
+                    while len(batch) < win:
+                        batch.append(next(it))
+                except StopIteration:
+                    done = True
+                except Exception as e:
+                    exc = e
+                    done = True
+                bno += 1
+                idx = sorted(range(len(batch)), key=lambda j: _h(key, 'poolx', seam.op_index, call_no, bno, j))
+                res = {}
+                for j in idx:
+                    res[j] = func(batch[j])
+                out = sorted(range(len(batch)), key=lambda j: _h(key, 'pooly', seam.op_index, call_no, bno, j))
+                if len(batch) > 1 and (idx != list(range(len(batch))) or out != list(range(len(batch)))):
+                    seam.stats['pool_batches_reordered'] = seam.stats.get('pool_batches_reordered', 0) + 1
+                    seam.fired['pool-completion-reordered'] = seam.fired.get('pool-completion-reordered', 0) + 1
+                for j in out:
+                    yield res[j]
+                if exc is not None:
+                    raise exc
+                if done:
+                    return
+    return SimPool
+
+
 class Seam:
     """Context manager that owns filesystem, clock and order for one run."""
 
     def __init__(self, root, order_key=None, faults=None, mounts=None,
                  clock=None, virtual_root=False, step_cap=None,
                  read_chunks=None, stamp_writes=True, zero_size=None,
-                 default_dev=None, hook=None, order_alias=(), patch_time=False):
+                 default_dev=None, hook=None, order_alias=(), patch_time=False, pool=None):
         self.root = os.path.realpath(root)
+        # completion order of the loader's worker pool: 'keyed' (permuted by the run's key) or 'serial' (as shipped)
+        if pool is None:
+            pool = 'keyed' if (order_key is not None and os.environ.get('VERIF_POOL', '1') != '0'
+                               and _h(order_key, 'pool-mode')[0] % 3 != 0) else 'serial'
+        self.pool = pool
+        self.pool_calls = 0
         self.order_key = order_key
         self.faults = [dict(f) for f in (faults or [])]
         for f in self.faults:
@@ -375,6 +440,7 @@ class Seam:
         self.op_index = index
         self.op_n = 0
         self.step_cap = step_cap
+        self.pool_calls = 0
 
     def _read_limit(self, rel, nread, want):
         rc = self.read_chunks
@@ -637,6 +703,10 @@ class Seam:
             import time as _time
             self._real_time = _time.time
             _time.time = lambda: self.clock.now_ns / 1e9
+        if self.pool == 'keyed':
+            import gemato.recursiveloader as _rl
+            self._real_pool = _rl.MultiprocessingPoolWrapper
+            _rl.MultiprocessingPoolWrapper = make_sim_pool(self)
         self.active = True
         return self
 
@@ -665,6 +735,9 @@ class Seam:
         if self.patch_time:
             import time as _time
             _time.time = self._real_time
+        if self.pool == 'keyed':
+            import gemato.recursiveloader as _rl
+            _rl.MultiprocessingPoolWrapper = self._real_pool
         self._saved = None
         # descriptors leaked by the code under test (generators not closed...)
         for fd in list(self._fds):
